@@ -75,6 +75,10 @@ CHECKS = {
             "TLC model-checks the step schedule machine for every bounded configuration (AdvSchedule.tla) and emits its behaviours; each behaviour is replayed into the real estimator (recording PytorchEngine subclass + recording callbacks) and followed by the equivalent partial_fit sequence; larger recorded executions are validated by TLC against AdvTrace.tla; AdvPredict.tla fixes the label-space mapping, replayed with forced raw outputs",
             "event sequence (slice bounds, step numbers, callback numbers per callback, stop) and n_iter_ equal the specification's for every configuration incl. batch_size -1 / not dividing n, epochs -1, max_iter, 1-2 callbacks; parameters after fit are torch.equal to those after partial_fit on the same slices; predict returns the positive class iff raw >= 1/2, the first arg-max class, the raw value, for 7 binary and 3 multiclass label encodings",
             "PyTorch backend only; shuffle=False as the property states", "5/C17"),
+    "C18": (["Bootstrap.tla", "BootTrace.tla"],
+            "TLC checks the quantile laws (monotone in the level, constant metric, range, enclosure of the mean) on all bounded statistic sequences (Bootstrap.tla); every recorded bootstrap call stream of real MetricFrames (recording metric logging the row-id multiset of each call) is validated by TLC against BootTrace.tla",
+            "per trace: the call stream splits into passes of exactly n rows (point estimate, then per resample an overall and a by-group pass), exactly n_boot resamples of n ids from the data, by-group calls hold one group each and partition the resample, resamples repeat rows and differ from each other, and the reported by_group quantiles of count equal the specification's quantile of the resample group sizes exactly; the harness checks list length, type/columns/index, ordering, and equality across two runs for all ten *_ci results, overall count = n, constant metric, positive width and enclosure of the resampling mean",
+            "dyadic quantile levels (k/8) so that reported values are exact rationals; the width / enclosure clause is statistical (fixed seeds)", "5/C18"),
 }
 
 PENDING_REASON = "check under construction in this session (DESIGN.md section 5 describes the planned TLA+ spec and binding); not yet claimed"
